@@ -150,6 +150,7 @@ static J op_to_json(const Op &op, World &w) {
     if (op.b) j.set("b", J::num(op.b));
     if (op.c) j.set("c", J::num(op.c));
     if (op.d) j.set("d", J::num(op.d));
+    if (op.h) j.set("hold", J::num(1));
     if (op.fk) { J f = J::obj(); f.set("alloc", J::num(op.fk)); f.set("mode", J::str(op.fm == 2 ? "sticky" : "once")); j.set("fault", f); }
     j.set("says", J::str(w.render(op)));
     return j;
@@ -194,6 +195,7 @@ bool plan_from_json(const J &j, Plan &p, std::string *err) {
             for (size_t i = 0; i < w->opnames().size(); i++) if (w->opnames()[i] == name) { op.k = (int)i; found = true; }
             if (!found) { if (err) *err = "unknown op " + name; return false; }
             op.a = (int)o.geti("a"); op.b = (int)o.geti("b"); op.c = (int)o.geti("c"); op.d = (int)o.geti("d");
+            op.h = (int)o.geti("hold");
             if (const J *f = o.get("fault")) { op.fk = (int)f->geti("alloc"); op.fm = f->gets("mode") == "sticky" ? 2 : 1; }
             ops.push_back(op);
         }
